@@ -368,6 +368,22 @@ static void thread_body(int tid, const std::vector<Op>& ops, ThreadResult& R)
           simsched::yield("between_store_and_load");
           q = *s.cell;
         });
+        if (o == OK && s.own && (op.a[3] & 1)) {
+          // the entry point of the thread's registered callback is written into (and read back from) its sandbox's memory
+          auto fcell = rlbox::sandbox_reinterpret_cast<long (**)(long, unsigned)>(s.cell);
+          rlbox::tainted<long (*)(long, unsigned), Sbx> back = nullptr;
+          Outcome o2 = attempt([&] {
+            *fcell = *s.own;
+            simsched::yield("between_store_and_load");
+            back = *fcell;
+          });
+          c.probe("callback_entry_point_stored_in_sandbox_memory");
+          if (o2 != OK)
+            viol("callback_store_fails@ptr_roundtrip", g_last_abort_msg.c_str());
+          else if (back == nullptr)
+            viol("callback_entry_point_lost@ptr_roundtrip", "the entry point written to sandbox memory reads back as null");
+          attempt([&] { *s.cell = p; });
+        }
         if (o != OK)
           viol("pointer_store_load_fails@ptr_roundtrip", g_last_abort_msg.c_str());
         else if (q.UNSAFE_unverified() != p.UNSAFE_unverified())
